@@ -1199,6 +1199,7 @@ package server
 
 //@ func (*BinaryServerProtocol).Close
 //@   requires self != nil
+//@   at call delete assert C18.close.own-entry,C03.close.own-entry: has(self.slock.clients, self.proxys[0].clientId) && ref(self.slock.clients[self.proxys[0].clientId]) == self && istype(self.slock.clients[self.proxys[0].clientId], *BinaryServerProtocol)
 //@   loop#1 invariant -1 <= rangeindex && rangeindex < len(self.proxys) && self.proxys == old(self.proxys) && forall(j, 0, rangeindex + 1, ref(self.proxys[j].serverProtocol) == defaultServerProtocol)
 //@   loop#2 invariant calls(Pop) == calls(ProcessCommad) && calls(PopRight) == 0 && willCommands != nil
 //@   at call ProcessCommad assert C18.will.order: calls(PopRight) == 0 && calls(Pop) == calls(ProcessCommad) && command != nil && ref(arg1) == command
@@ -1431,4 +1432,12 @@ package server
 //@   modifies all
 //@ func (*TextServerProtocol).commandHandlerUnlock
 //@   at call LockCommandQueue.Push assert C18.will.register: arg1.CommandType == protocol.COMMAND_UNLOCK && calls(LockDB.UnLock) == 0
+//@   modifies all
+
+// C18: a connection that announces a second client id gives up the first one (its table entry, if it is still this
+// connection's): nothing stays registered for a connection beyond the id it announced last
+//@ func (*BinaryServerProtocol).Init
+//@   requires self != nil && self.slock != nil && len(self.proxys) >= 1 && self.proxys[0] != nil
+//@   ensures C18.init.old-id-released: implies(old(self.inited) && old(has(self.slock.clients, self.proxys[0].clientId)) && old(ref(self.slock.clients[self.proxys[0].clientId])) == self && old(istype(self.slock.clients[self.proxys[0].clientId], *BinaryServerProtocol)), !has(self.slock.clients, old(self.proxys[0].clientId)))
+//@   ensures C18.init.announced: self.inited && self.proxys[0].clientId == clientId
 //@   modifies all
